@@ -194,6 +194,11 @@ class Signed(BitVector):
             rhs = Integer.decay(rhs)
             target_width = self.width
 
+        if isinstance(rhs, Signed):
+            # -min is not representable in the width of rhs
+            target_width = max(self.width, rhs.width)
+            rhs = rhs.resize(rhs.width + 1)
+
         rhs = -rhs
         return self.add(rhs, target_width)
 
